@@ -259,6 +259,9 @@ def pair_check(ax, case, rec):
             Ao = np.asarray(OR.hessian([I1, None])[0], float).reshape(3, 3, 3, 3, -1)[..., 0]
             As = np.asarray(SV.hessian([I1, None])[0], float).reshape(3, 3, 3, 3, -1)[..., 0]
             rec.close("orthotropic=svk-tangent-at-I", relmax(Ao, As, float(np.abs(Ao).max())), 1e-10)
+            # the linear law: stress = elasticity : displacement gradient (and the large-strain twin's energy / stress access)
+            Po = np.asarray(OR.gradient([F.copy(), None])[0], float)
+            rec.close("orthotropic-stress=C:H", relmax(Po, np.einsum("ijkl,kl...->ij...", Ao, F - I), float(np.abs(Ao).max()) * case["amp"]), 1e-11)
             # material axes not aligned with the global ones: the tangent is the rotated orthotropic tangent
             from scipy.spatial.transform import Rotation
 
